@@ -1,13 +1,14 @@
 #!/bin/sh
 # tools/run_mutants_subset.sh <out.tsv> <ID/mutant-dir-or-diff>...   -- like run_all_mutants.sh for a chosen list (appends rows)
 OUT="$1"; shift
+OUTD="${MUT_OUT:-/verif/work/mut}"; mkdir -p "$OUTD"
 run() { # id name origin patch
   s=$(date +%s)
-  /verif/tools/mutant.sh "$4" "$1" quick > /verif/work/mut/one.log 2>&1
+  /verif/tools/mutant.sh "$4" "$1" quick > "$OUTD/one.log" 2>&1
   rc=$?
   e=$(date +%s)
-  run=$(grep -o "violation in run [0-9]*" /verif/work/mut/last.log | head -1 | awk '{print $4}')
-  kind=$(grep -o "violation in run [0-9]*: kind=[a-z_]*" /verif/work/mut/last.log | head -1 | sed 's/.*kind=//')
+  run=$(grep -o "violation in run [0-9]*" "$OUTD/last.log" | head -1 | awk '{print $4}')
+  kind=$(grep -o "violation in run [0-9]*: kind=[a-z_]*" "$OUTD/last.log" | head -1 | sed 's/.*kind=//')
   printf '%s\t%s\t%s\t%s\t%s\t%s\t%s\n' "$1" "$2" "$3" "$rc" "${run:--}" "${kind:--}" "$((e-s))" >> "$OUT"
 }
 for x in "$@"; do
